@@ -63,6 +63,7 @@ class Snapshot:
         self.dirs = set()    # relative directories (excluding top)
         self.empty_dirs = set()
         self.errors = []
+        self.page_count = self.page_size = None
         con = real_connect(os.path.join(directory, DB), timeout=5,
                            isolation_level=None)
         try:
@@ -86,6 +87,8 @@ class Snapshot:
                 self.rows.append(row)
             self.settings = dict(
                 con.execute('SELECT key, value FROM Settings').fetchall())
+            self.page_count = con.execute('PRAGMA page_count').fetchall()[0][0]
+            self.page_size = con.execute('PRAGMA page_size').fetchall()[0][0]
         finally:
             con.close()
         for dirpath, dirs, files in os.walk(directory):
